@@ -1,12 +1,26 @@
 #!/bin/bash
-# usage: scripts/seedrun.sh <seeded id> <property...>   applies seeded/<id>/patch.diff to /repo, runs the
-# quick checks of the given properties (VERIF_BUDGET_S default 12), restores /repo. Prints one line per check.
+# usage: scripts/seedrun.sh <seeded id> <property...>
+# Runs the quick checks of the given properties (VERIF_BUDGET_S default 12) against the seeded change
+# seeded/<id>/patch.diff. If the patch applies to /repo's HEAD it is applied there and undone straight
+# afterwards; otherwise a scratch worktree of the change's base_commit (meta.json) is used through VERIF_REPO.
+# Evidence goes to /tmp/seed-evidence so /verif/evidence keeps describing the unchanged tree.
 id=$1; shift
 cd /verif
 git -C /repo diff --quiet || { echo "/repo dirty"; exit 2; }
-git -C /repo apply /verif/seeded/$id/patch.diff || { echo "patch does not apply"; exit 2; }
+W=""
+if git -C /repo apply --check /verif/seeded/$id/patch.diff 2>/dev/null; then
+  git -C /repo apply /verif/seeded/$id/patch.diff
+  REPO=/repo
+else
+  base=$(python3 -c "import json;print(json.load(open('/verif/seeded/$id/meta.json')).get('base_commit',''))")
+  [ -n "$base" ] || { echo "patch does not apply and no base_commit"; exit 2; }
+  W=/tmp/mut/run-$id; rm -rf $W; git -C /repo worktree prune
+  git -C /repo worktree add -q --detach $W $base || exit 2
+  git -C $W apply /verif/seeded/$id/patch.diff || { echo "patch does not apply to base $base"; git -C /repo worktree remove --force $W; exit 2; }
+  REPO=$W
+fi
 for p in "$@"; do
-  out=$(VERIF_EVIDENCE_DIR=/tmp/seed-evidence VERIF_BUDGET_S=${VERIF_BUDGET_S:-12} ./check $p quick 2>&1); rc=$?
+  out=$(VERIF_REPO=$REPO VERIF_EVIDENCE_DIR=/tmp/seed-evidence VERIF_BUDGET_S=${VERIF_BUDGET_S:-12} ./check $p quick 2>&1); rc=$?
   echo "$id $p exit=$rc $(echo "$out" | grep -m2 -E "^VIOLATION|^HARNESS|^BUILD" | cut -c1-260 | tr '\n' ' ')"
 done
-git -C /repo checkout -- .
+if [ -n "$W" ]; then git -C /repo worktree remove --force $W; else git -C /repo checkout -- .; fi
